@@ -42,22 +42,38 @@ def run(ctx):
                 while isinstance(t, tuple) and t[0] == 'un' and t[1] == 'Not':
                     t, v = t[2], (not v)
                 atoms.append((t, v))
-        if not ups:
+        walked = ups or any(e['kind'] == 'call' and e['callee'].endswith('set_data_index') for e in w.trace)
+        if not walked:
             if emitted:
                 res.bad('datacount/no-segments', 'a DataCount section is emitted for a module without data segments')
             continue
-        # the boolean accumulated over the segments
+        # "some segment is passive": a boolean accumulated over the segments (`flag |= data.is_passive()`), or
+        # `iter().any(is_passive)` over the same walk
+        def passive_any(t):
+            if not (isinstance(t, tuple) and t and t[0] == 'call' and t[1].split('::')[-1] == 'any' and len(t[2]) == 2):
+                return False
+            src, pred = t[2]
+            if 'iter(self)' not in show(src) or 'iter_local' in show(src):
+                return False
+            if pred[0] == 'fnitem':
+                return pred[1].endswith('Data::is_passive')
+            return pred[0] == 'call' and pred[1].endswith('Data::is_passive') and show(pred[2][0]) == 'elem(iter(self))'
         flags = [u for u in ups if u['args'][0][2][1] == lit(False, 'bool')]
-        if len(flags) != 1:
-            flag_ok = False
-            continue
-        lv, upd = flags[0]['args']
-        good = upd[0] == 'bin' and upd[1] == 'BitOr' and upd[2] == lv and upd[3][0] == 'call' \
-            and upd[3][1].endswith('Data::is_passive') and upd[3][2] == (('elem', flags[0]['args'][0][2][0]),)
+        pa = [(t, v) for t, v in atoms if passive_any(t)]
+        if len(flags) == 1 and not pa:
+            lv, upd = flags[0]['args']
+            good = upd[0] == 'bin' and upd[1] == 'BitOr' and upd[2] == lv and upd[3][0] == 'call' \
+                and upd[3][1].endswith('Data::is_passive') and upd[3][2] == (('elem', flags[0]['args'][0][2][0]),)
+            fa = [v for t, v in atoms if t[0] == 'call' and t[1] == 'loop_result' and t[2][0] == lv]
+        elif pa and not flags:
+            good = True
+            fa = [v for t, v in pa]
+        else:
+            good = False
+            fa = []
         flag_ok = good if flag_ok is None else (flag_ok and good)
-        fa = [v for t, v in atoms if t[0] == 'call' and t[1] == 'loop_result' and t[2][0] == lv]
         sa = [(t, v) for t, v in atoms if 'used_data_segments' in show(t)]
-        any_a = [v for t, v in atoms if t[0] == 'call' and t[1].startswith('iter::any')]
+        any_a = [v for t, v in atoms if t[0] == 'call' and t[1].startswith('iter::any') and 'iter_local' in show(t)]
         first = fa[0] if fa else None
         second = any_a[0] if any_a else None
         if first is True:
